@@ -12,6 +12,8 @@ Definition wf_cfg (c : cfg) : Prop := dpol c = PBlock -> dcap c <> Some 0.
 Section S.
 Variable c : cfg.
 Variable wake : state -> nat -> bool.
+(* the repaired worker: ErrCurrentOpSkip from Receive makes it take the next item, not return *)
+Hypothesis SK : skipstop c = false.
 
 Record InvL (st : state) : Prop := {
   il_must : forall w m r v mu p, wk st w = WBusy m r v mu p -> incl mu (subs st);
@@ -59,7 +61,7 @@ Proof. induction 1; [apply InvL_init|]. eapply InvL_step; eauto. Qed.
 
 (* every accepted message is done, evicted, still buffered, or being dispatched *)
 Definition acc_inv (st : state) : Prop :=
-  forall m, In m (acc st) -> In m (done st) \/ In m (evicted st) \/ In m (dist st)
+  forall m, In m (acc st) -> In m (done st) \/ In m (evicted st ++ skipped st) \/ In m (dist st)
                              \/ exists w r v mu p, wk st w = WBusy m r v mu p.
 
 Ltac acc_old AC :=
@@ -121,7 +123,7 @@ Lemma quiescent_live : forall st, wf_cfg c -> sigbuf c = true -> reach c wake st
   dist st = [] /\ loop st = LIdle /\ subq st = [] /\ unsubq st = [] /\
   (forall k, call st k = CIdle) /\
   (forall w, w < nw c -> wk st w = WIdle \/ wk st w = WParked) /\
-  (forall m, In m (acc st) -> In m (done st) \/ In m (evicted st)).
+  (forall m, In m (acc st) -> In m (done st) \/ In m (evicted st) \/ In m (skipped st)).
 Proof.
   intros st WF SB R Q LV.
   pose proof (invl_reach st R) as IL. pose proof (invo_reach c wake st R) as IO. pose proof (acc_reach st R) as AC.
@@ -132,19 +134,28 @@ Proof.
   assert (D : dist st = []).
   { destruct (dist st) as [|m d] eqn:E; auto. exfalso.
     destruct (WK 0 nw_pos) as [W0|W0].
-    - pose proof (Q (ETake 0) eq_refl) as X. unfold step in X. rewrite W0, E in X.
+    - destruct (chanb c) eqn:CB; [rewrite (io_chan _ _ IO CB) in E; discriminate|].
       destruct (Nat.ltb_spec 0 (nw c)); [|pose proof nw_pos; lia].
-      destruct (chanb c) eqn:CB; [|discriminate]. rewrite (io_chan _ _ IO CB) in E. discriminate.
+      destruct (passes (outmod c) m) eqn:PO.
+      + pose proof (Q (ETake 0) eq_refl) as X. unfold step in X. rewrite W0, E, CB, PO in X.
+        destruct (Nat.ltb_spec 0 (nw c)); [discriminate|lia].
+      + pose proof (Q (ESkip 0) eq_refl) as X. unfold step in X. rewrite W0, E, CB, PO in X.
+        destruct (Nat.ltb_spec 0 (nw c)); [discriminate|lia].
     - pose proof (Q (EWake 0) eq_refl) as X. unfold step in X. rewrite W0 in X.
       destruct (Nat.ltb_spec 0 (nw c)); [|pose proof nw_pos; lia].
       rewrite wake_spec in X; auto; [discriminate|]. left; rewrite E; discriminate. }
   assert (L : loop st = LIdle).
   { destruct (loop st) as [|m|k|] eqn:E; auto; exfalso.
-    - destruct (chanb c) eqn:CB.
+    - destruct (passes (inmod c) m) eqn:PI;
+        [|pose proof (Q ELoopFilter eq_refl) as X; unfold step in X; rewrite E, PI in X; discriminate].
+      destruct (chanb c) eqn:CB.
       + destruct (WK 0 nw_pos) as [W0|W0]; [|eapply il_park; eauto].
-        pose proof (Q (ETake 0) eq_refl) as X. unfold step in X. rewrite W0, E, CB in X.
-        destruct (Nat.ltb_spec 0 (nw c)); [discriminate|pose proof nw_pos; lia].
-      + pose proof (Q ELoopPush eq_refl) as X. unfold step in X. rewrite CB, E, D in X.
+        destruct (passes (outmod c) m) eqn:PO.
+        * pose proof (Q (ETake 0) eq_refl) as X. unfold step in X. rewrite W0, E, CB, PI, PO in X.
+          destruct (Nat.ltb_spec 0 (nw c)); [discriminate|pose proof nw_pos; lia].
+        * pose proof (Q (ESkip 0) eq_refl) as X. unfold step in X. rewrite W0, E, CB, PI, PO in X.
+          destruct (Nat.ltb_spec 0 (nw c)); [discriminate|pose proof nw_pos; lia].
+      + pose proof (Q ELoopPush eq_refl) as X. unfold step in X. rewrite CB, E, D, PI in X.
         unfold room in X. unfold wf_cfg in WF. simpl in X.
         destruct (dcap c) as [k|] eqn:DC; [|discriminate].
         destruct k; [|discriminate]. simpl in X.
@@ -167,7 +178,8 @@ Proof.
     + pose proof (Q (EStats1 k) eq_refl) as X. unfold step in X. rewrite E, L, SB in X. discriminate.
     + pose proof (Q (EStats2 k) eq_refl) as X. unfold step in X. rewrite E, SB in X.
       destruct (il_stats _ IL SB) as [_ S2]. rewrite (S2 _ E) in X. discriminate.
-  - intros m Hm. destruct (AC m Hm) as [?|[?|[Di|(w & r & v & mu & p & Hw)]]]; auto.
+  - intros m Hm. destruct (AC m Hm) as [?|[G|[Di|(w & r & v & mu & p & Hw)]]]; auto.
+    + apply in_app_or in G. tauto.
     + rewrite D in Di. destruct Di.
     + exfalso. eapply busy_not_quiescent; eauto.
 Qed.
@@ -184,7 +196,9 @@ Proof.
     + destruct (blocking_backend c) eqn:BB.
       * pose proof (Q ELoopAbort eq_refl) as X. unfold step in X. rewrite E, LV, BB in X. discriminate.
       * unfold blocking_backend in BB. apply orb_false_iff in BB as [CB BP].
-        pose proof (Q ELoopPush eq_refl) as X. unfold step in X. rewrite CB, E in X.
+        destruct (passes (inmod c) m) eqn:PI;
+          [|pose proof (Q ELoopFilter eq_refl) as X; unfold step in X; rewrite E, PI in X; discriminate].
+        pose proof (Q ELoopPush eq_refl) as X. unfold step in X. rewrite CB, E, PI in X. simpl in X.
         destruct (room c (dist st)); [discriminate|].
         destruct (dpol c); try discriminate. destruct (dist st); discriminate.
     + destruct (il_stats _ IL SB) as [S1 _]. eapply S1; eauto.
@@ -195,7 +209,9 @@ Proof.
       * pose proof (Q (EWExit w) eq_refl) as X. unfold step in X. rewrite WL, E, LV, CB in X. discriminate.
       * destruct (dist st) eqn:D.
         -- pose proof (Q (EWExit w) eq_refl) as X. unfold step in X. rewrite WL, E, LV, CB, D in X. discriminate.
-        -- pose proof (Q (ETake w) eq_refl) as X. unfold step in X. rewrite WL, E, CB, D in X. discriminate.
+        -- destruct (passes (outmod c) m) eqn:PO.
+           ++ pose proof (Q (ETake w) eq_refl) as X. unfold step in X. rewrite WL, E, CB, D, PO in X. discriminate.
+           ++ pose proof (Q (ESkip w) eq_refl) as X. unfold step in X. rewrite WL, E, CB, D, PO in X. discriminate.
     + pose proof (Q (EWake w) eq_refl) as X. unfold step in X. rewrite WL, E in X.
       rewrite wake_spec in X; auto. discriminate.
     + eapply busy_not_quiescent; eauto.
